@@ -41,6 +41,51 @@ HelperCases ==
     \cup {[s |-> HelperO("add", pP), x |-> x, o |-> Dv([k \in {"P"} |-> a])] : a \in {Str("ab"), Lv(<<I(9)>>)}, x \in {Str("xy"), Lv(<<I(1), I(2)>>)}}
     \cup {[s |-> Helper0(h), x |-> x, o |-> EmptyD] : h \in Unary, x \in {I(0), I(3), Nv} \cup SeqArgs}
 
+\* the general helper table (Mode = "helpers2")
+ListArgs == {Lv(<<>>), Lv(<<I(1), I(2)>>), Lv(<<I(2), I(0), I(2)>>)}
+Nested == {Lv(<<Lv(<<I(1)>>), Lv(<<>>), Lv(<<I(2), I(3)>>)>>), Lv(<<>>)}
+DA == Dv([k \in {"a", "b"} |-> IF k = "a" THEN I(1) ELSE I(2)])
+DB == Dv([k \in {"b", "c"} |-> IF k = "b" THEN I(5) ELSE I(0)])
+DictArgs == {DA, DB, EmptyD}
+PQ(a, b) == Dv([k \in {"P", "Q"} |-> IF k = "P" THEN a ELSE b])
+OnlyP(a) == Dv([k \in {"P"} |-> a])
+F1(h, fs, xs) == {[s |-> HelperG(h, <<PF(f)>>), x |-> x, o |-> EmptyD] : f \in fs, x \in xs}
+F0(h, xs) == {[s |-> HelperG(h, <<>>), x |-> x, o |-> EmptyD] : x \in xs}
+V1(h, as, xs) ==
+    {[s |-> HelperG(h, <<PC(a)>>), x |-> x, o |-> EmptyD] : a \in as, x \in xs}
+    \cup {[s |-> HelperG(h, <<PO(pP)>>), x |-> x, o |-> OnlyP(a)] : a \in as, x \in xs}
+    \cup {[s |-> HelperG(h, <<PO(pP)>>), x |-> x, o |-> EmptyD] : x \in xs}
+V2(h, as, bs, xs) ==
+    UNION {{[s |-> HelperG(h, <<IF m1 THEN PC(a) ELSE PO(pP), IF m2 THEN PC(b) ELSE PO(pQ)>>), x |-> x, o |-> o] :
+               x \in xs, m1 \in BOOLEAN, m2 \in BOOLEAN, o \in {PQ(a, b), OnlyP(a)}} : a \in as, b \in bs}
+FV(h, fs, as, xs) ==
+    {[s |-> HelperG(h, <<PF(f), PC(a)>>), x |-> x, o |-> EmptyD] : f \in fs, a \in as, x \in xs}
+    \cup UNION {{[s |-> HelperG(h, <<PF(f), PO(pP)>>), x |-> x, o |-> o] : f \in fs, x \in xs, o \in {OnlyP(a), EmptyD}} : a \in as}
+Ints3 == {I(0), I(3), I(0 - 2)}
+HelperGCases ==
+    F1("map", {"g", "inc"}, ListArgs) \cup F1("filter", {"isPos", "isBig"}, ListArgs)
+    \cup F1("reduce", {"h2"}, ListArgs) \cup FV("reduce", {"h2"}, {I(9)}, ListArgs)
+    \cup F1("into", {"h2"}, ListArgs \cup {[t |-> "u", l |-> <<I(4), I(6)>>]})
+    \cup F0("flatten", Nested) \cup F1("flatmap", {"dup"}, ListArgs)
+    \cup F0("invert", {Bv(TRUE), Bv(FALSE), I(0), I(2), Nv}) \cup F1("invert", {"isPos"}, Ints3)
+    \cup {[s |-> HelperG(h, <<PF("isPos"), PF("isBig")>>), x |-> x, o |-> EmptyD] : h \in {"all", "any"}, x \in {I(0), I(1), I(2)}}
+    \cup V2("has_remainder", {I(2), I(3)}, {I(0), I(1)}, {I(4), I(7)})
+    \cup UNION {F0(h, Ints3 \cup {I(5)}) : h \in {"negative", "non_positive", "non_negative", "odd"}}
+    \cup F0("is_not_none", {Nv, I(0), Bv(FALSE)})
+    \cup V2("one_of", {I(1), I(2)}, {I(3)}, {I(1), I(3), I(5)}) \cup V2("none_of", {I(1), I(2)}, {I(3)}, {I(1), I(3), I(5)})
+    \cup V1("intersects", SeqArgs, SeqArgs \cup {Lv(<<I(7)>>)}) \cup V1("disjoint_from", SeqArgs, SeqArgs \cup {Lv(<<I(7)>>)})
+    \cup V2("get", {I(0), I(5)}, {I(99), Nv}, SeqArgs) \cup V2("get", {Str("a"), Str("zz")}, {I(99)}, DictArgs)
+    \cup V2("get_from", SeqArgs, {I(99), Nv}, {I(0), I(5)})
+    \cup V1("merge", DictArgs, DictArgs)
+    \cup F1("map_keys", {"kz"}, DictArgs) \cup F1("map_values", {"inc", "g"}, DictArgs) \cup F1("map_items", {"kzinc"}, DictArgs)
+    \cup F1("filter_keys", {"isA"}, DictArgs) \cup F1("filter_values", {"isPos", "isBig"}, DictArgs) \cup F1("filter_items", {"isAorBig"}, DictArgs)
+    \cup F1("ensure", {"isPos"}, {I(0), I(3)})
+    \cup {[s |-> HelperG("instance_of", tys), x |-> x, o |-> EmptyD] :
+            tys \in {<<PF("int")>>, <<PF("str"), PF("list")>>, <<PF("bool")>>}, x \in {I(1), Bv(TRUE), Str("ab"), Lv(<<>>)}}
+    \cup {[s |-> HelperG("call_method", <<nm, PC(I(2))>>), x |-> x, o |-> OnlyP(Str("count"))] : nm \in {PC(Str("count")), PO(pP)}, x \in ListArgs}
+    \cup V1("get_attribute", {Str("real"), Str("imag")}, {I(3)})
+    \cup V2("partial", {I(1)}, {I(2)}, {I(7)})
+
 Record(term, x, o) ==
     [a |-> "Pipe", term |-> term, x |-> x, o |-> o, names |-> Names(term),
      res |-> Transform(term, x, o), keys |-> KeysOfP(term, o), explain |-> ExplainP(term, o)]
@@ -52,6 +97,8 @@ Next ==
           /\ \E n \in 1 .. MaxLen : \E term \in Terms(n) : \E x \in Inputs, o \in PDicts : act' = Record(term, x, o)
        \/ /\ Mode = "helpers"
           /\ \E c \in HelperCases : act' = Record(Leaf(c.s), c.x, c.o)
+       \/ /\ Mode = "helpers2"
+          /\ \E c \in HelperGCases : act' = Record(Leaf(c.s), c.x, c.o)
 Spec == Init /\ [][Next]_act
 
 \* the laws, on every triple of pipelines of <= 2 leaves (and pairs of <= 3)
